@@ -162,3 +162,32 @@ def grisu (t : FTy) (bits : Nat) : Option (List Nat × Int) :=
     generateDigits w upper lower (i32 (-ki))
 
 end LexVerif.Model.Grisu
+
+/-! ## literals of compact.rs (see `Model/Dragonbox.lean`, section "literals") -/
+namespace LexVerif.Model.Grisu
+
+def litBinPowMulA : Nat := 152170
+def litBinPowMulB : Nat := 65536
+def litBinPowShift : Nat := 16
+def litBinPowBias : Nat := 63
+def litDecPowStep : Nat := 8
+def litDecPowFirst : Nat := 348
+def litNPowers : Nat := 87
+def litExpMax : Nat := 32
+def litExpMin : Nat := 60
+
+def fastBinaryPowerLiterals : List Nat := [litBinPowMulA, litBinPowMulB, litBinPowShift, litBinPowBias]
+def fastDecimalPowerLiterals : List Nat := [litDecPowStep, litDecPowFirst]
+/-- `debug_assert!(((-1075 - 64 - 1)..=(1024 + 64 + 1))…)`, `NPOWERS = 87`, `FIRSTPOWER = -348`, `STEPPOWERS = 8`,
+`EXPMAX = -32`, `EXPMIN = -60`, `+ 64`, `idx += 1`, `idx -= 1` (the `f64` literal `ONE_LOG_TEN` is not an integer literal) -/
+def cachedGrisuPowerLiterals : List Nat :=
+  [1075, 64, 1, 1024, 64, 1, litNPowers, litDecPowFirst, litDecPowStep, litExpMax, litExpMin, 64, 1, 1]
+def mulLiterals : List Nat := [32, 0, 32, 0, 32, 32, 32, 1, 32, 1, 32, 32, 32, 64]
+def normalizeLiterals : List Nat := [0]
+def normalizedBoundariesLiterals : List Nat := [1, 1, 1, 1, 1]
+def roundDigitLiterals : List Nat := [1, 1, 1]
+def generateDigitsLiterals : List Nat :=
+  [0, 1, 1, 0, 10, 1000000000, 0, 0, 0, 10, 1, 1, 10, 10, 10, 10, 1, 0, 0, 10, 1, 1, 10]
+def grisuLiterals : List Nat := [1, 1]
+
+end LexVerif.Model.Grisu
